@@ -22,7 +22,12 @@ def isAttrOp (op : String) : Bool := op ∈ ["LOAD_ATTR", "LOAD_METHOD", "LOOKUP
 def isSubscrOp (op : String) : Bool := op ∈ ["BINARY_SUBSCR", "STORE_SUBSCR"]
 def isSliceOp (op : String) : Bool := op ∈ ["BINARY_SLICE", "STORE_SLICE"]
 def isCallOp (op : String) : Bool := op ∈ ["CALL_FUNCTION", "CALL_METHOD", "CALL"]
-def endsTarget (op : String) : Bool := op.startsWith "STORE_" || op.startsWith "UNPACK_"
+/-- `insn.opname.startswith(("STORE_", "UNPACK_"))`, spelled out over the opcodes that can reach the test: every other
+opcode either raised ValueError before it or is one of the LOAD_/BINARY_/CALL/DUP_TOP/POP_TOP/PRECALL/CACHE/PUSH_NULL
+names above, none of which has such a prefix.  (`String.startsWith` does not reduce in the kernel.) -/
+def endsTarget (op : String) : Bool :=
+  op ∈ ["STORE_GLOBAL", "STORE_FAST", "STORE_NAME", "STORE_DEREF", "STORE_ATTR", "STORE_SUBSCR", "STORE_SLICE",
+        "UNPACK_SEQUENCE", "UNPACK_EX"]
 
 def formatTuple (values : List String) : String :=
   match values with
